@@ -1130,6 +1130,26 @@ func (propC18) Generate(r *Rand, tier string) []Case {
 	g.daterange(rep)
 	g.constants(rep)
 	g.hashes(rep)
+	// long payloads: the round trip holds whatever the length of the encoded text (one line of more than 64 KiB included)
+	sizes := []int{1000, 34000} // 34 000 bytes are 68 000 hex digits: one line of more than 64 KiB
+	if tier == "thorough" {
+		sizes = []int{1000, 34000, 50000, 80000}
+	}
+	for _, n := range sizes {
+		long := strings.Repeat("payload-0123456789-", n/19+1)[:n]
+		bases := []string{"base64", "hex", "base32"}
+		if n == 34000 && tier != "thorough" {
+			bases = []string{"hex"}
+		}
+		for _, b := range bases {
+			g.out = append(g.out, Case{Input: c18In{Kind: "expr", Form: "row", Expr: c18F("decode", c18F("encode", c18C(long), c18L(b)), c18L(b))},
+				Tags: []string{"stream:codec", "roundtrip", fmt.Sprintf("long-payload:%d", n)}, Nontrivial: true})
+		}
+		if n <= 1000 || tier == "thorough" {
+			g.out = append(g.out, Case{Input: c18In{Kind: "expr", Form: "row", Expr: c18F("hash", c18C(long), c18L("sha256"))}, Tags: []string{"stream:hash", fmt.Sprintf("long-payload:%d", n)}, Nontrivial: true})
+			g.out = append(g.out, Case{Input: c18In{Kind: "expr", Form: "row", Expr: c18F("to_upper", c18C(long))}, Tags: []string{"stream:case", fmt.Sprintf("long-payload:%d", n)}, Nontrivial: true})
+		}
+	}
 	g.codecs(rep)
 	g.arities(rep)
 	g.sideEffecting(rep)
